@@ -9,7 +9,8 @@ package main
 // The one state that can never make progress again is a CLOSED WAIT CYCLE: the
 // loop goroutine parked in a plain channel operation inside runSync, and every
 // goroutine it ever spawned that is still alive (enumerator, copy workers, their
-// helpers) parked in a plain channel operation with a perkeep frame on top.  The
+// helpers) parked in a plain channel operation with a frame of the sync machinery
+// (packages server / blobserver) on top.  The
 // channels of runSync are local to that call, so no goroutine outside the set
 // can ever complete one of these operations.  Such a state, observed unchanged at
 // several successive polls during which the handler issued no lower-layer call
@@ -130,16 +131,21 @@ func plainChanOp(state string) bool { return state == "chan receive" || state ==
 var enumeratorSelects = []string{
 	"perkeep.org/pkg/server.(*SyncHandler).enumeratePendingBlobs",
 	"perkeep.org/pkg/server.(*SyncHandler).enumerateQueuedBlobs",
-	"perkeep.org/pkg/server.blobserverEnumerator.func1.1",
+	"blobserverEnumerator", // its closure: "…blobserverEnumerator.func1.1", or "…newSyncFromConfig.func1.blobserverEnumerator.1.1" when inlined
 }
 
 func parkedOnLoop(g gor) bool {
 	if plainChanOp(g.State) {
-		return strings.HasPrefix(g.top(), "perkeep.org/")
+		// a perkeep frame, or the harness' own source/destination enumeration handing its page
+		// to blobserver.EnumerateAllFrom with a plain send (see recStorage.EnumerateBlobs)
+		// (only frames of the sync machinery itself — packages server and blobserver — count: a worker
+		// parked inside a destination such as the index may be waiting for goroutines outside the set)
+		return strings.HasPrefix(g.top(), "perkeep.org/pkg/server.") || strings.HasPrefix(g.top(), "perkeep.org/pkg/blobserver.") ||
+			(g.State == "chan send" && g.top() == "main.(*recStorage).EnumerateBlobs")
 	}
 	if g.State == "select" {
 		for _, f := range enumeratorSelects {
-			if g.top() == f {
+			if g.top() == f || (!strings.Contains(f, "/") && strings.HasPrefix(g.top(), "perkeep.org/pkg/server.") && strings.Contains(g.top(), f)) {
 				return true
 			}
 		}
